@@ -648,7 +648,8 @@ def generated_member_readers_are_marked_not_polled_on_every_path(ctx):
     if ci is None:
         raise AnchorMissing('frappy.extparams.StructParam not found')
     n = 0
-    for name, f in sorted(ci.methods.items()):
+    units = sorted(ci.methods.items()) + sorted((q, fi) for q, fi in m.functions.items() if fi.module is ci.module and fi.cls is None and fi.parent is None)
+    for name, f in units:      # (the methods of StructParam and the module level factories of frappy.extparams)
         marks = {}
         for t, v, st in attr_stores(f.node):
             if t.attr == 'poll' and isinstance(t.value, ast.Name) and isinstance(v, ast.Constant) and v.value is False:
